@@ -41,6 +41,8 @@ BerOps == {"len-short", "len-long", "len-4GiB", "len-2GiB", "len-indefinite", "l
            "tag-zero", "tag-long", "tag-other-class", "nest-deep", "children-many", "drop-node", "dup-node", "swap-siblings",
            "empty-value", "value-huge", "oid-malformed", "int-negative", "int-huge", "string-type-swap", "bitstring-unused-9"}
 BerTargets == {"root", "first-child", "last-child", "deepest", "every-constructed", "every-oid", "every-integer", "every-octet-string", "random-node"}
+\* on the fixed-layout binary records inside a BER value (ISO/IEC 19794-5 face record in DG2): counts and lengths that lie
+RecordOps == {"rec-record-length", "rec-block-length", "rec-face-count", "rec-feature-count", "rec-image-dimensions"}
 \* on a CBOR item
 CborOps == {"head-len-4GiB", "head-len-2^63", "map-key-renamed", "map-key-dropped", "value-type-swapped", "nest-arrays-deep", "indefinite-unterminated",
             "bytes-instead-of-map", "tag-wrapped", "float-instead-of-int", "duplicate-key"}
@@ -57,13 +59,14 @@ Applicable(b, op, tg) ==
      /\ (op \in {"oid-malformed"} => tg \in {"every-oid", "random-node"})
      /\ (op \in {"int-negative", "int-huge"} => tg \in {"every-integer", "random-node"})
      /\ (op \in {"nest-deep", "children-many"} => tg \in {"root", "deepest", "every-constructed", "random-node"})
+  \/ op \in RecordOps /\ tg = "biometric-record" /\ b = "DG2"
   \/ op \in CborOps /\ tg \in CborTargets /\ Encoding(b) = "cbor"
   \/ op \in EvidenceOps /\ tg = "evidence" /\ b = "VerifiableDoc-CBOR"
   \/ op \in ResponseOps /\ tg = "session" /\ b = "ChipResponses"
   \/ op \in TextOps /\ tg = "text" /\ b = "MRZ"
 
-AllOps == ByteOps \cup BerOps \cup CborOps \cup EvidenceOps \cup ResponseOps \cup TextOps
-AllTargets == BerTargets \cup CborTargets \cup {"bytes", "evidence", "session", "text"}
+AllOps == ByteOps \cup BerOps \cup RecordOps \cup CborOps \cup EvidenceOps \cup ResponseOps \cup TextOps
+AllTargets == BerTargets \cup CborTargets \cup {"bytes", "evidence", "session", "text", "biometric-record"}
 Plans == {p \in [base : Bases, op : AllOps, target : AllTargets] : Applicable(p.base, p.op, p.target)}
 
 \* ---- the contract ------------------------------------------------------------------------------------------
